@@ -447,6 +447,7 @@ pub fn exec_op(op: &Op, ctx: Ctx) {
                 match r {
                     Ok(()) => {
                         s.st = St::Enabled;
+                        s.disabled_by_post_action = false;
                         s.enabled_since_cb = true;
                         if in_dispatch {
                             s.touched_at = d;
